@@ -189,6 +189,9 @@ impl Prop for C16 {
     fn id(&self) -> &'static str {
         "C16"
     }
+    fn fuzz_target(&self) -> Option<&'static str> {
+        Some("tape")
+    }
     fn rule(&self) -> String {
         "complete witnesses: 1-3 failed property indices, 0-6 states (bit-vectors of 1-200 bits; arrays with index width 1-64, 1-6 recorded indices incl. duplicates and zero entries, sparse and dense storage), 0-5 inputs, 1-6 steps with a value for every input, names without whitespace/;/@/# (the format's delimiters); streams of 1-5 witnesses. witness_to_string -> parse_witness / parse_witnesses(n') for n' below, at and above the number written: same failed indices, names, bit-vector values, sorted de-duplicated index lists and array contents at every recorded index; order preserved; prefix semantics for n' < n. Shapes the printer cannot express (no failed property, array without recorded index, array-typed inputs (documented todo), index width > 64 (baa limitation)) are excluded by construction. Non-trivial: witness with an array state of >= 2 recorded indices or a stream of >= 2 witnesses; distinct by hash of the text.".into()
     }
